@@ -67,9 +67,13 @@ def stream_sizes(ctx, res):
         reqs_ok.append((1301, [ws, horiz, oq(d), o]))
     models = oracle_batch(reqs_m)
     oks = oracle_batch(reqs_ok)
+    both = 0
     for (s, horiz, d, other), o, m, ok in zip(cases, obs, models, oks):
         res["evaluations"] += 1
         mm = r_result(m, geom.r_size)
+        if other is not None:
+            both += 1            # both dimensions passed to one Size: API misuse outside the statement - counted only
+            continue
         if other is None:
             if s[1] != 2:
                 res["nontrivial"].add(("size", s, horiz, d))
@@ -85,6 +89,7 @@ def stream_sizes(ctx, res):
         if not same:
             res["disagreements"].append({"stream": "size", "input": [list(s), horiz, d, other], "impl": repr(o), "model": repr(mm)})
     res["distribution"]["size_cases"] = len(cases)
+    res["distribution"]["size_cases_with_both_dimensions(outside the statement, not compared)"] = both
 
 
 # ------------------------------------------------------------------------------------------------ B
@@ -117,7 +122,7 @@ def same_layout(a, b):
             for sa, sb in zip(a[i], b[i]):
                 if sa[1] != sb[1] or not close(sa[0], sb[0]):
                     return False
-    return a[3] == b[3] and (a[4] or None) == (b[4] or None)
+    return a[3] == b[3]          # webvtt_positioning after a transformation: not in the statement, not compared
 
 
 def stream_layouts(ctx, res):
@@ -143,7 +148,7 @@ def stream_layouts(ctx, res):
         res["evaluations"] += 1
         if isinstance(o, Err):
             refused += 1
-        if any(s is not None and any(x[1] != 2 for x in s) for s in l[:3]):
+        if any(s is not None and any(x is not None and x[1] != 2 for x in s) for s in l[:3]):
             res["nontrivial"].add(("layout-pct", repr(l), w, h))
         if ok != 1:
             res["violations"].append({
@@ -171,6 +176,7 @@ def stream_layouts(ctx, res):
     oks = oracle_batch(reqs_ok)
     models = oracle_batch(reqs_m)
     changed = 0
+    outside = 0
     for l, o, ok, m in zip(cases, obs, oks, models):
         res["evaluations"] += 1
         if ok != 1:
@@ -184,10 +190,15 @@ def stream_layouts(ctx, res):
         if isinstance(op, Ok) and op.v[1] != geom.float_layout(l)[1]:
             changed += 1
             res["nontrivial"].add(("fit", repr(l)))
+        fl = geom.float_layout(l)
+        if fl[0] is not None and not (0 <= fl[0][0][0] <= 90 and 0 <= fl[0][1][0] <= 95):
+            outside += 1         # origin beyond the safe area: the statement makes no claim (C12 owns the round trip) - counted
+            continue
         if not ((isinstance(op, Err) and op == mm) or (isinstance(op, Ok) and isinstance(mm, Ok) and same_layout(op.v, mm.v))):
             res["disagreements"].append({"stream": "fit", "input": l, "impl": repr(op), "model": repr(mm)})
     res["distribution"]["fit_cases"] = len(cases)
     res["distribution"]["fit_extent_recomputed"] = changed
+    res["distribution"]["fit_cases_origin_outside_safe_area(oracle only, not compared with the model)"] = outside
     # BaseWriter._relativize_and_fit_to_screen, all option combinations
     cases = []
     for _ in range(ctx.n(2000, 50000)):
@@ -195,6 +206,11 @@ def stream_layouts(ctx, res):
         cases.append((posgen.gen_layout(rng, units, p_none=0.3) if rng.random() < 0.9 else (None, None, None, None, rng.choice(["", "line:1"])),
                       rng.random() < 0.7, rng.random() < 0.6, rng.choice(DIMS)))
     reqs_m, obs = [], []
+    if not hasattr(BaseWriter, "_relativize_and_fit_to_screen"):
+        # a protected helper, not public API: when it is renamed this stream is skipped (the writers are checked end to end)
+        res["distribution"]["relativize_and_fit_helper"] = "absent: stream skipped"
+        cases = []
+    other_errors = 0
     for l, rel, fit, (w, h) in cases:
         lay = geom.mk_layout(l)
         bw = BaseWriter(relativize=rel, video_width=w, video_height=h, fit_to_screen=fit)
@@ -205,8 +221,14 @@ def stream_layouts(ctx, res):
     for (l, rel, fit, (w, h)), o, m in zip(cases, obs, models):
         res["evaluations"] += 1
         mm = r_result(m, geom.r_layout)
+        if (isinstance(o, Err) and o.code != 5) or (isinstance(mm, Err) and mm.code != 5):
+            other_errors += 1    # fit_to_screen on absolute units: the kind of exception is not in the statement - counted
+            continue
         if not ((isinstance(o, Err) and o == mm) or (isinstance(o, Ok) and isinstance(mm, Ok) and same_layout(o.v, mm.v))):
             res["disagreements"].append({"stream": "relativize_and_fit", "input": [l, rel, fit, w, h], "impl": repr(o), "model": repr(mm)})
+
+
+    res["distribution"]["relativize_and_fit_cases_ending_in_another_exception(counted, not compared)"] = other_errors
 
 
 # ------------------------------------------------------------------------------------------------ C
@@ -220,26 +242,47 @@ def parse_len(s):
     return (Fraction(m.group(1)), geom.UNIT_NAMES.index(m.group(2)))
 
 
-def dfxp_regions(doc):
-    """[(id, {origin: [..], extent: [..], padding: [..]}, raw attrs)] for every <region> of the output"""
+def dfxp_document(doc):
+    """regions {id: {origin/extent/padding: [..]}} and the positioned elements in document order:
+    [("div"|"p"|"span", region id or None, inline {origin/extent/padding: [..]}, lang index, caption index)]"""
     root = etree.fromstring(doc.encode("utf-8"))
-    out = []
-    for r in root.iter("{http://www.w3.org/ns/ttml}region"):
+    ns = "{http://www.w3.org/ns/ttml}"
+
+    def tts(el):
         att = {}
         for k in ("origin", "extent", "padding"):
-            v = r.get("{%s}%s" % (TTS, k))
+            v = el.get("{%s}%s" % (TTS, k))
             if v is not None:
                 att[k] = v.split(" ")
-        out.append((r.get("{%s}id" % XML), att))
+        return att
+    regions = {}
+    for r in root.iter(ns + "region"):
+        regions[r.get("{%s}id" % XML)] = tts(r)
+    elems = []
+    for li, div in enumerate(root.iter(ns + "div")):
+        elems.append(("div", div.get("region"), tts(div), li, None))
+        for ci, p_ in enumerate(div.iter(ns + "p")):
+            elems.append(("p", p_.get("region"), tts(p_), li, ci))
+            for sp in p_.iter(ns + "span"):
+                elems.append(("span", sp.get("region"), tts(sp), li, ci))
+    return regions, elems
+
+
+def sami_blocks(doc):
+    """{selector: {margin-top: .., ...}} of the stylesheet (declaration order is irrelevant in CSS)"""
+    out = {}
+    for m in re.finditer(r"\n\s*(\S+) \{([^}]*)\}", doc):
+        decl = {}
+        for d in m.group(2).split(";"):
+            if ":" in d:
+                k, v = d.split(":", 1)
+                decl[k.strip()] = v.strip()
+        out[m.group(1)] = decl
     return out
 
 
-def sami_margins(doc):
-    return [(m.group(1), m.group(2).strip()) for m in re.finditer(r"margin-(top|right|bottom|left):\s*([^;]*);", doc)]
-
-
 def vtt_settings(doc):
-    """per cue: dict of settings (timing lines)"""
+    """per cue: (timing, dict of settings) (timing lines)"""
     out = []
     for line in doc.split("\n"):
         if "-->" in line:
@@ -298,22 +341,39 @@ class Printed:
         ms = self.model_str(sizes)
         if ms == printed:
             return True
-        oks = oracle_batch([(1309, [[s[0], s[1]], p]) for s, p in zip(sizes, printed)])
+        # statement level: <= 2 decimals, unit, within 1/200 (+1e-9); the canonical form is C18's clause, not C13's
+        oks = oracle_batch([(1315, [[s[0], s[1]], p]) for s, p in zip(sizes, printed)])
         return all(o == 1 for o in oks)
 
 
 WRITERS = {"dfxp": DFXPWriter, "sami": SAMIWriter, "vtt": WebVTTWriter}
 
 
+def opts_of(acs):
+    o = acs.get("opts") or {}
+    return bool(o.get("inline")), o.get("force")
+
+
 def run_writer(fmt, cfg, acs, cs=None, writer=None):
-    """cs / writer: objects reused across a sequence of writes (history streams); default: fresh ones"""
+    """cs / writer: objects reused across a sequence of writes (history streams); default: fresh ones.
+    acs["opts"]: {"inline": write_inline_positioning, "force": language passed as force= (DFXP) / lang= (WebVTT)}"""
     rel, fit, w, h = cfg
+    inline, force = opts_of(acs)
     if cs is None:
         cs = posgen.build(acs)
     if writer is None:
-        writer = WRITERS[fmt](relativize=rel, fit_to_screen=fit, video_width=w, video_height=h)
+        kw = dict(relativize=rel, fit_to_screen=fit, video_width=w, video_height=h)
+        if fmt == "dfxp":
+            kw["write_inline_positioning"] = inline
+        writer = WRITERS[fmt](**kw)
     else:
         writer.relativize, writer.fit_to_screen, writer.video_width, writer.video_height = rel, fit, w, h
+        if fmt == "dfxp":
+            writer.write_inline_positioning = inline
+    if fmt == "dfxp" and force:
+        return impl.call(lambda: writer.write(cs, force=force))
+    if fmt == "vtt" and force:
+        return impl.call(lambda: writer.write(cs, lang=force))
     return impl.call(lambda: writer.write(cs))
 
 
@@ -334,76 +394,167 @@ def vtt_group_layouts(nodes):
             if has and cur is not None and truthy(posgen.tup(cur)) and geo(n[-1]) != geo(cur):
                 groups.append(cur)
             cur, has = n[-1], True
-        elif n[0] == "break":
+        elif n[0] in ("break", "style"):
             has = True
     if has:
         groups.append(cur)
     return groups
 
 
-def reached_layouts(fmt, acs):
-    """the layouts the writer positions something with (spec side of 'refused iff a needed dimension is missing')"""
+def written_langs(fmt, acs):
+    """indices of the languages the call writes"""
+    inline, force = opts_of(acs)
+    names = [lg["name"] for lg in acs["langs"]]
+    if fmt == "dfxp":
+        return [names.index(force)] if force in names else list(range(len(names)))
+    if fmt == "vtt":
+        return [names.index(force)] if force in names else [0]
+    return list(range(len(names)))
+
+
+def project(acs, idx):
+    """the caption set restricted to the written languages (what the model is asked about)"""
+    return dict(acs, langs=[acs["langs"][i] for i in idx])
+
+
+def first_truthy(*ls):
+    for l in ls:
+        if l is not None and truthy(posgen.tup(l)):
+            return l
+    return None
+
+
+def layouts_traversed(fmt, acs):
+    """every layout the writer may look at: a refusal is legitimate only if one of them needs a missing dimension"""
+    inline, force = opts_of(acs)
     out = []
-    if fmt == "sami" and acs["global"] is not None:
+    if (fmt == "sami" or (fmt == "dfxp" and inline)) and acs["global"] is not None:
         out.append(acs["global"])
-    langs = acs["langs"] if fmt != "vtt" else acs["langs"][:1]
-    for lg in langs:
-        if fmt != "vtt" and lg["layout"] is not None:
-            out.append(lg["layout"])
-        for c in lg["caps"]:
-            if fmt != "vtt":
-                if c["layout"] is not None:
-                    out.append(c["layout"])
-                out.extend(n[-1] for n in c["nodes"] if n[-1] is not None)
-            else:
-                # per cue (= group of text nodes with one layout): that layout, else the caption's, else the language's
+    for i in written_langs(fmt, acs):
+        lg = acs["langs"][i]
+        if fmt == "vtt":
+            for c in lg["caps"]:
                 for g in vtt_group_layouts(c["nodes"]):
-                    for cand in (g, c["layout"], lg["layout"]):
-                        if cand is not None and truthy(posgen.tup(cand)):
-                            out.append(cand)
-                            break
-    return [posgen.tup(l) for l in out if truthy(posgen.tup(l))]
+                    l = first_truthy(g, c["layout"], lg["layout"])
+                    if l is not None:
+                        out.append(l)
+            continue
+        out.append(lg["layout"])
+        for c in lg["caps"]:
+            out.append(c["layout"])
+            out.extend(n[-1] for n in c["nodes"])
+    return [posgen.tup(l) for l in out if l is not None and truthy(posgen.tup(l))]
+
+
+def span_starts(nodes):
+    """style-start nodes that get a <span region=..>: those with a (truthy) layout"""
+    return [n for n in nodes if n[0] in ("style", "ustyle") and n[1] and n[-1] is not None and truthy(posgen.tup(n[-1]))]
+
+
+def layouts_written(fmt, acs):
+    """the layouts (reduced to the lengths) that reach the document: the writer MUST refuse if one of them needs a missing
+    dimension ("instead of writing a wrong or absolute value")"""
+    inline, force = opts_of(acs)
+    out = []
+    if fmt == "sami":
+        cands = ([acs["global"]] if acs.get("styles") else []) + [lg["layout"] for lg in acs["langs"]]
+        for l in cands:                                   # only paddings are written (margins)
+            if l is not None and posgen.tup(l)[2] is not None:
+                out.append((None, None, posgen.tup(l)[2], None, None))
+        return out
+    for i in written_langs(fmt, acs):
+        lg = acs["langs"][i]
+        if fmt == "vtt":
+            for c in lg["caps"]:
+                for g in vtt_group_layouts(c["nodes"]):
+                    l = first_truthy(g, c["layout"], lg["layout"])
+                    if l is not None and not posgen.tup(l)[4]:
+                        l = posgen.tup(l)
+                        # position / line come from the origin, size from the horizontal extent
+                        e = None if l[1] is None else (l[1][0], (0, 2))
+                        out.append((l[0], e, None, None, None))
+            continue
+        g = acs["global"] if inline else None
+        div = first_truthy(lg["layout"], g)
+        if div is not None:
+            out.append(posgen.tup(div))
+        for c in lg["caps"]:
+            p_ = first_truthy(c["layout"], lg["layout"], g)
+            if p_ is not None:
+                out.append(posgen.tup(p_))
+            out.extend(posgen.tup(n[-1]) for n in span_starts(c["nodes"]))
+    return out
+
+
+def needs(layouts, w, h):
+    oq = lambda x: None if x is None else Some(exact(x))  # noqa: E731
+    if not layouts:
+        return False
+    return any(m == 1 for m in oracle_batch([(1311, [oq(w), oq(h), geom.a_layout_w(geom.float_layout(l))]) for l in layouts]))
+
+
+def lengths_of(att):
+    return [x for v in att.values() for x in v]
+
+
+def is_pct(x):
+    v = parse_len(x)
+    return v is not None and v[1] == 2
+
+
+def fits(att):
+    """None: no claim (no origin / origin not a percentage inside the safe area); else bool: extent present, right <= 90,
+    bottom <= 95 (two two-decimal prints: 1/100 slack)"""
+    if "origin" not in att:
+        return None
+    x, y = parse_len(att["origin"][0]), parse_len(att["origin"][1])
+    if not (x and y and x[1] == 2 and y[1] == 2 and 0 <= x[0] <= 90 and 0 <= y[0] <= 95):
+        return None
+    ext = att.get("extent")
+    if ext is None:
+        return False
+    ew, eh = parse_len(ext[0]), parse_len(ext[1])
+    return bool(ew and eh and ew[1] == 2 and eh[1] == 2 and x[0] + ew[0] <= 90 + Fraction(1, 100) and y[0] + eh[0] <= 95 + Fraction(1, 100))
 
 
 def check_case(fmt, cfg, acs, printed, res, shape=None, cs=None, writer=None, history=None):
     """returns an outcome tag; violations / disagreements are appended to res.
     history: the configurations already written in this process with the same objects (recorded for the replay)"""
     rel, fit, w, h = cfg
+    inline, force = opts_of(acs)
     out = run_writer(fmt, cfg, acs, cs, writer)
     res["evaluations"] += 1
+    info = res["distribution"].setdefault("writer_information", {})
     base = {"replay": "writer", "fmt": fmt, "cfg": list(cfg), "input": acs}
     if history is not None:
         base.update(replay="history", history=[list(c) for c in history], same_writer=writer is not None)
-    oq = lambda x: None if x is None else Some(exact(x))  # noqa: E731
-    # ---- spec: must the writer refuse?
-    reached = reached_layouts(fmt, acs)
-    if rel and reached:
-        miss = oracle_batch([(1311, [oq(w), oq(h), geom.a_layout_w(geom.float_layout(l))]) for l in reached])
-        must_refuse = any(m == 1 for m in miss)
-    else:
-        must_refuse = False
-    # ---- model
+    # ---- spec: must / may the writer refuse?
+    must_refuse = rel and needs(layouts_written(fmt, acs), w, h)
+    may_refuse = rel and (must_refuse or needs(layouts_traversed(fmt, acs), w, h))
+    # ---- model (asked about the written languages only)
+    idx = written_langs(fmt, acs)
+    pacs = project(acs, idx)
     wcfg = posgen.w_cfg(cfg)
     if fmt == "dfxp":
-        m = r_result(oracle_batch([(1306, [wcfg, posgen.w_nset(acs)])])[0], posgen.r_nset)
+        m = r_result(oracle_batch([(1313 if inline else 1306, [wcfg, posgen.w_nset(pacs)])])[0], posgen.r_nset)
     elif fmt == "sami":
-        m = r_result(oracle_batch([(1307, [wcfg, posgen.w_nset(acs)])])[0], posgen.r_nset)
+        m = r_result(oracle_batch([(1307, [wcfg, posgen.w_nset(pacs)])])[0], posgen.r_nset)
     else:
-        lg = acs["langs"][0]
+        lg = pacs["langs"][0]
         rs = oracle_batch([(1308, [wcfg, posgen.w_optlayout(lg["layout"]), posgen.w_ncap(c)]) for c in lg["caps"]])
         ms = [r_result(r) for r in rs]
         bad = [x for x in ms if isinstance(x, Err)]
         m = bad[0] if bad else Ok([x.v for x in ms])
     if isinstance(out, Err):
-        if out.code == 5 and must_refuse:
+        if out.code == 5:
+            if not may_refuse:
+                res["violations"].append(dict(base, kind="refused-without-need", impl_obs=repr(out),
+                                              what=f"{fmt} writer raised RelativizationError although no layout it looks at "
+                                                   f"needs a missing video dimension (video {w}x{h})"))
+                return "viol"
             if not (isinstance(m, Err) and m.code == 5):
                 res["disagreements"].append(dict(base, stream="writer", impl=repr(out), model=repr(m)[:300]))
             return "refused"
-        if rel and out.code == 5 and not must_refuse:
-            res["violations"].append(dict(base, kind="refused-without-need", impl_obs=repr(out),
-                                          what=f"{fmt} writer raised RelativizationError although every needed video "
-                                               f"dimension was supplied (video {w}x{h})"))
-            return "viol"
         # other exceptions (ValueError from fit_to_screen on absolute units with relativize off): documented, model must agree
         if not (isinstance(m, Err) and m.code == out.code):
             res["disagreements"].append(dict(base, stream="writer", impl=repr(out), model=repr(m)[:300]))
@@ -411,114 +562,197 @@ def check_case(fmt, cfg, acs, printed, res, shape=None, cs=None, writer=None, hi
     if must_refuse:
         res["violations"].append(dict(base, kind="not-refused" + ("" if shape is None else "-" + shape), shape=shape,
                                       impl_obs=out.v[:600],
-                                      what=f"{fmt} writer (relativize on, video {w}x{h}) wrote a document although a needed "
+                                      what=f"{fmt} writer (relativize on, video {w}x{h}) wrote a document with a length whose "
                                            f"video dimension is missing (must raise RelativizationError)"))
         return "viol"
     doc = out.v
+    unwritten_refusal = isinstance(m, Err) and m.code == 5
+    if unwritten_refusal:
+        # the model (like the unchanged code) refuses because of a layout that would not reach the document; the statement
+        # asks for refusal "instead of writing a wrong or absolute value" only: counted, the lengths are still checked
+        info["document_written_although_a_layout_that_is_never_written_needs_a_dimension"] = \
+            info.get("document_written_although_a_layout_that_is_never_written_needs_a_dimension", 0) + 1
     if fmt == "dfxp":
-        regs = dfxp_regions(doc)
-        lengths = [(rid, k, x) for rid, att in regs for k, v in att.items() for x in v]
-        nonpct = [t for t in lengths if parse_len(t[2]) is None or parse_len(t[2])[1] != 2]
-        if rel and nonpct:
-            res["violations"].append(dict(base, kind="non-percent-length" + ("" if shape is None else "-" + shape), shape=shape,
-                                          impl_obs=repr(nonpct[:4]),
-                                          what=f"DFXP output with relativization on carries the length {nonpct[0][2]!r} "
-                                               f"(tts:{nonpct[0][1]} of region {nonpct[0][0]})"))
-            return "viol"
+        regions, elems = dfxp_document(doc)
+
+        def att_of(el):
+            kind, rid, inl, li, ci = el
+            if inline:
+                return inl
+            if rid is None:
+                return {}            # an element without a region attribute (a style-only span) positions nothing itself
+            return regions.get(rid)
+        # level of the layout each positioned element uses, from the INPUT (div: language, else set level; p: caption, else
+        # language, else set level; span: its node)
+        in_levels = []
+        for lg in pacs["langs"]:
+            in_levels.append("lang" if first_truthy(lg["layout"]) is not None else "set")
+            for c in lg["caps"]:
+                in_levels.append("cap" if first_truthy(c["layout"]) is not None else
+                                 ("lang" if first_truthy(lg["layout"]) is not None else "set"))
+                in_levels.extend("node" for _ in span_starts(c["nodes"]))
+        positioned = [el for el in elems if el[0] != "span" or el[1] is not None or el[2]]
+        level_of = dict(zip(map(id, positioned), in_levels)) if len(positioned) == len(in_levels) else {}
+        # every length that positions something is a percentage
+        for el in elems:
+            att = att_of(el)
+            if att is None:
+                res["violations"].append(dict(base, kind="element-region-missing", impl_obs=repr(el[:2]),
+                                              what=f"DFXP <{el[0]} region={el[1]!r}> references a region that is not in the document"))
+                return "viol"
+            bad = [x for x in lengths_of(att) + lengths_of(el[2]) + lengths_of(regions.get(el[1]) or {}) if not is_pct(x)]
+            if rel and bad and not inline and level_of.get(id(el)) == "set" and acs["global"] is not None:
+                # the element falls back to the (never relativized) set-level layout and finds the region of an EQUAL layout
+                # of a language that force= left untransformed: known_findings.d/C13-dfxp-set-level-fallback-region.json
+                res["violations"].append(dict(base, kind="non-percent-length-set-level-fallback", shape="set-level-region",
+                                              impl_obs=repr((el[0], el[1], att)),
+                                              what=f"DFXP <{el[0]} region={el[1]!r}> falls back to the set-level layout and references "
+                                                   f"a region with the absolute length {bad[0]!r} (relativization on)"))
+                return "known-set-level-region"
+            if rel and bad:
+                res["violations"].append(dict(base, kind="non-percent-length" + ("" if shape is None else "-" + shape), shape=shape,
+                                              impl_obs=repr((el[0], el[1], att)),
+                                              what=f"DFXP output with relativization on carries the length {bad[0]!r} "
+                                                   f"on/for <{el[0]} region={el[1]!r}>"))
+                return "viol"
+        if unwritten_refusal:
+            return "ok-unwritten"
         if isinstance(m, Err):
             res["disagreements"].append(dict(base, stream="writer", impl="document", model=repr(m)))
             return "dis"
         g, langs = m.v
-        exp = []       # (level, expected sizes dict)
-        for ll, caps in langs:
-            if truthy(ll):
-                exp.append(("lang", expected_sizes(ll)))
-            for cl, nodes in caps:
-                if truthy(cl):
-                    exp.append(("cap", expected_sizes(cl)))
-                exp.extend(("node", expected_sizes(nl)) for _, nl in nodes if truthy(nl))
+        # expected layout of every positioned element (completeness: each div / p / span-with-layout is checked)
+        exp_elems = []
+        for li, (ll, caps) in enumerate(langs):
+            gl = g if inline else None
+            exp_elems.append(("div", first_plain(ll, gl), li, None, "lang" if truthy_plain(ll) else "set"))
+            for ci, (cl, nodes) in enumerate(caps):
+                exp_elems.append(("p", first_plain(cl, ll, gl), li, ci,
+                                  "cap" if truthy_plain(cl) else ("lang" if truthy_plain(ll) else "set")))
+                src = pacs["langs"][li]["caps"][ci]["nodes"]
+                for n, (kind, nl) in zip(src, nodes):
+                    if n[0] in ("style", "ustyle") and n[1] and truthy(nl):
+                        exp_elems.append(("span", nl, li, ci, "node"))
+        got = [el for el in elems if el[0] != "span" or el[1] is not None or el[2]]
+        if [(e[0], e[2], e[3]) for e in exp_elems] != [(e[0], e[3], e[4]) for e in got]:
+            res["violations"].append(dict(base, kind="dfxp-elements", impl_obs=repr([(e[0], e[1]) for e in got])[:400],
+                                          what="the positioned elements of the DFXP document (div / p / span with a region) are not "
+                                               "those of the caption set (one div per language, one p per caption, one span per style "
+                                               "node with a layout)"))
+            return "viol"
         lang_unfit = []
-        for rid, att in regs:
-            if rid == "bottom" and not att:
-                continue
-            found = [lvl for lvl, e in exp if set(e) == set(att) and all(printed.match(att[k], e[k]) for k in att)]
-            if not found:
-                bad = dict(base, impl_obs=repr(att), model=repr(exp)[:500])
+        for (kind, el_l, li, ci, level), el in zip(exp_elems, got):
+            att = att_of(el)
+            e = expected_sizes(el_l)
+            alt_ok = False
+            if not inline and g is not None and el_l is None:
+                # fallback to the set-level layout: a region exists only if an equal layout was written elsewhere
+                ge = expected_sizes(g)
+                alt_ok = set(ge) == set(att) and all(printed.match(att[k], ge[k]) for k in att)
+            good = (set(e) == set(att) and all(printed.match(att[k], e[k]) for k in att)) or alt_ok
+            if not good:
+                bad = dict(base, impl_obs=repr((kind, el[1], att)), model=repr(e)[:400])
                 if rel:
                     res["violations"].append(dict(bad, kind="wrong-percentage",
-                                                  what=f"DFXP region {rid} {att!r} is not the two-decimal print of the exact "
-                                                       f"percentages of any layout of the caption set"))
+                                                  what=f"DFXP <{kind} region={el[1]!r}> carries {att!r}: not the two-decimal print of "
+                                                       f"the exact percentages of the layout of that {kind}"))
                     return "viol"
                 res["disagreements"].append(dict(bad, stream="writer"))
                 return "dis"
-            if fit and set(found) == {"lang"} and "origin" in att:
-                # the <div> region: DFXPWriter does not fit language-level layouts (pinned test_empty_cue expects the
-                # unfitted region) - reported under its own kind, see known_findings.d/C13-dfxp-lang-level-not-fit.json
-                x, y = parse_len(att["origin"][0]), parse_len(att["origin"][1])
-                if x and y and x[1] == 2 and y[1] == 2 and 0 <= x[0] <= 90 and 0 <= y[0] <= 95:
-                    ext = att.get("extent")
-                    ok = ext is not None
-                    if ok:
-                        ew, eh = parse_len(ext[0]), parse_len(ext[1])
-                        ok = ew and eh and ew[1] == 2 and eh[1] == 2 and x[0] + ew[0] <= 90 + Fraction(1, 50) \
-                            and y[0] + eh[0] <= 95 + Fraction(1, 50)
-                    if not ok:
-                        lang_unfit.append(dict(base, kind="region-not-fit-lang-level", shape="lang-level-not-fit",
-                                               impl_obs=repr(att),
-                                               what=f"DFXP <div> region {rid} {att!r} (language-level layout) is written "
-                                                    f"unfitted although fit_to_screen is on"))
-            if fit and set(found) & {"cap", "node"} and "origin" in att:
-                x, y = parse_len(att["origin"][0]), parse_len(att["origin"][1])
-                if x and y and x[1] == 2 and y[1] == 2 and 0 <= x[0] <= 90 and 0 <= y[0] <= 95:
-                    ext = att.get("extent")
-                    ok = ext is not None
-                    if ok:
-                        ew, eh = parse_len(ext[0]), parse_len(ext[1])
-                        ok = ew and eh and ew[1] == 2 and eh[1] == 2 and x[0] + ew[0] <= 90 + Fraction(1, 50) \
-                            and y[0] + eh[0] <= 95 + Fraction(1, 50)
-                    if not ok:
-                        res["violations"].append(dict(base, kind="region-not-fit", impl_obs=repr(att),
-                                                      what=f"DFXP region {rid} {att!r} written with fit_to_screen on ends "
-                                                           f"beyond 90%/95% or has no extent"))
-                        return "viol"
+            if fit and fits(att) is False:
+                if level in ("lang", "set"):
+                    # DFXPWriter does not fit language-level layouts (pinned test_empty_cue expects the unfitted <div>
+                    # region; a <p> without a layout of its own falls back to it):
+                    # known_findings.d/C13-dfxp-lang-level-not-fit.json - classified by the LEVEL OF THE LAYOUT the element
+                    # uses (from the input), never by the printed values
+                    lang_unfit.append(dict(base, kind="region-not-fit-lang-level", shape="lang-level-not-fit", impl_obs=repr(att),
+                                           what=f"DFXP <{kind} region={el[1]!r}> {att!r} (language-level layout) is written unfitted "
+                                                f"although fit_to_screen is on"))
+                else:
+                    res["violations"].append(dict(base, kind="region-not-fit", impl_obs=repr((kind, el[1], att)),
+                                                  what=f"DFXP <{kind} region={el[1]!r}> {att!r} written with fit_to_screen on ends "
+                                                       f"beyond 90%/95% or has no extent"))
+                    return "viol"
         if lang_unfit:
             res["violations"].append(lang_unfit[0])
             return "known-lang-unfit"
         return "ok"
     if fmt == "sami":
-        marg = sami_margins(doc)
-        nonpct = [t for t in marg if parse_len(t[1]) is None or parse_len(t[1])[1] != 2]
+        blocks = sami_blocks(doc)
+        marg = [(sel, k, v) for sel, d in blocks.items() for k, v in d.items() if k.startswith("margin-")]
+        nonpct = [t for t in marg if not is_pct(t[2])]
         if rel and nonpct:
             res["violations"].append(dict(base, kind="non-percent-length", impl_obs=repr(nonpct[:4]),
-                                          what=f"SAMI output with relativization on carries margin-{nonpct[0][0]}: {nonpct[0][1]!r}"))
+                                          what=f"SAMI output with relativization on carries {nonpct[0][1]}: {nonpct[0][2]!r} in {nonpct[0][0]}"))
             return "viol"
+        if unwritten_refusal:
+            return "ok-unwritten"
         if isinstance(m, Err):
             res["disagreements"].append(dict(base, stream="writer", impl="document", model=repr(m)))
             return "dis"
         g, langs = m.v
-        exp = []
-        for ll, _ in langs:
-            if ll is not None and ll[2] is not None:
-                b, a, s, e = ll[2]
-                exp.extend([("bottom", a), ("left", s), ("right", e), ("top", b)])   # sorted by attribute name
-        if len(exp) != len(marg) or any(k != ek or not printed.match([v], [es]) for (k, v), (ek, es) in zip(marg, exp)):
-            bad = dict(base, impl_obs=repr(marg), model=repr(exp)[:500])
-            if rel:
-                res["violations"].append(dict(bad, kind="wrong-percentage",
-                                              what=f"SAMI margins {marg!r} are not the two-decimal print of the exact "
-                                                   f"percentages of the language-level paddings"))
-                return "viol"
-            res["disagreements"].append(dict(bad, stream="writer"))
-            return "dis"
+        exp = {}
+        for lg, (ll, _) in zip(pacs["langs"], langs):
+            exp["." + lg["name"]] = ll
+        if acs.get("styles"):
+            exp[".c1"] = g
+        for sel, lay in exp.items():
+            got = {k: v for k, v in blocks.get(sel, {}).items() if k.startswith("margin-")}
+            want = {}
+            if lay is not None and lay[2] is not None:
+                b, a, s_, e = lay[2]
+                want = {"margin-top": b, "margin-right": e, "margin-bottom": a, "margin-left": s_}
+            if set(got) != set(want) or any(not printed.match([got[k]], [want[k]]) for k in got):
+                bad = dict(base, impl_obs=repr((sel, got)), model=repr(want)[:500])
+                if rel:
+                    res["violations"].append(dict(bad, kind="wrong-percentage",
+                                                  what=f"SAMI margins of {sel} {got!r} are not the two-decimal print of the exact "
+                                                       f"percentages of that level's padding"))
+                    return "viol"
+                res["disagreements"].append(dict(bad, stream="writer"))
+                return "dis"
         return "ok"
     # WebVTT
     cues = vtt_settings(doc)
-    for d in cues:
+    lg = pacs["langs"][0]
+    cue_layouts = []
+    for c in lg["caps"]:
+        for gl in vtt_group_layouts(c["nodes"]):
+            cue_layouts.append(first_truthy(gl, c["layout"], lg["layout"]))
+    for d, lay in zip(cues, cue_layouts + [None] * len(cues)):
+        raw = lay is not None and bool(posgen.tup(lay)[4])
         for k in ("position", "line", "size"):
-            if k in d and (parse_len(d[k]) is None or parse_len(d[k])[1] != 2):
+            if k in d and not is_pct(d[k]):
+                if raw:
+                    info["raw_cue_settings_with_a_non_percentage_token_passed_through(C12 verbatim clause)"] = \
+                        info.get("raw_cue_settings_with_a_non_percentage_token_passed_through(C12 verbatim clause)", 0) + 1
+                    continue
                 res["violations"].append(dict(base, kind="non-percent-length", impl_obs=repr(d),
                                               what=f"WebVTT output carries the non-percentage length {k}:{d[k]}"))
                 return "viol"
+    # fit clause on computed cues: origin inside the safe area -> right edge (position + size) <= 90
+    if rel and fit and len(cues) == len(cue_layouts):
+        oq = lambda x: None if x is None else Some(exact(x))  # noqa: E731
+        todo = [(d, posgen.tup(l)) for d, l in zip(cues, cue_layouts) if l is not None and not posgen.tup(l)[4] and posgen.tup(l)[0] is not None]
+        rels = oracle_batch([(1302, [True, False, oq(w), oq(h), geom.a_layout_w(geom.float_layout(l))]) for _, l in todo])
+        for (d, l), r1 in zip(todo, rels):
+            l1 = r_result(r1, geom.r_layout)
+            if isinstance(l1, Err):
+                continue
+            x, y = l1.v[0][0][0], l1.v[0][1][0]
+            if not (0 <= x <= 90 and 0 <= y <= 95):
+                continue
+            ps = l1.v[2][2][0] if l1.v[2] else 0
+            pe = l1.v[2][3][0] if l1.v[2] else 0
+            room = 90 - x - ps - pe
+            sz = parse_len(d["size"]) if "size" in d else None
+            if sz is None or sz[0] > room + Fraction(1, 100) or (l1.v[1] is None and abs(sz[0] - room) > Fraction(1, 100)):
+                res["violations"].append(dict(base, kind="vtt-not-fit", impl_obs=repr(d),
+                                              what=f"WebVTT cue {d!r} written with fit_to_screen on: origin x = {float(x):.2f}% is inside "
+                                                   f"the safe area but size is missing or exceeds the room up to 90% ({float(room):.2f}%)"))
+                return "viol"
+    if unwritten_refusal:
+        return "ok-unwritten"
     if isinstance(m, Err):
         res["disagreements"].append(dict(base, stream="writer", impl="document", model=repr(m)))
         return "dis"
@@ -530,7 +764,7 @@ def check_case(fmt, cfg, acs, printed, res, shape=None, cs=None, writer=None, hi
         if o[0] == 0:
             good = d == {}
         elif o[0] == 1:
-            good = True      # raw settings are not generated here
+            good = True      # raw settings: verbatim (C12)
         else:
             al = geom.r_o(o[1], lambda x: x)
             good = d.get("align") == (None if al is None else ["left", "center", "right", "start", "end"][al])
@@ -546,7 +780,46 @@ def check_case(fmt, cfg, acs, printed, res, shape=None, cs=None, writer=None, hi
     return "ok"
 
 
-CFG_DIMS = [(640, 360), (1920, 1080), (None, 360), (640, None), (None, None), (3, 7)]
+def truthy_plain(l):
+    return l is not None and truthy(l)
+
+
+def first_plain(*ls):
+    """first truthy plain (model output) layout"""
+    for l in ls:
+        if l is not None and truthy(l):
+            return l
+    return None
+
+
+CFG_DIMS = [(640, 360), (1920, 1080), (None, 360), (640, None), (None, None), (3, 7), (0, 360), (1280.5, 720.25)]
+RAW_SETTINGS = ["position:10%,start line:5% size:50%", "line:-1 align:left", "position:10px"]
+
+
+def gen_writer_case(rng, fmt, rel, fit, history=False):
+    if rel:
+        units = rng.choice([(0,), (0, 2), (2,), (0, 1, 2, 3, 4), (1, 3, 4)])
+    else:
+        # relativize off + fit on is only meaningful on percentage layouts (fit_to_screen documents that it must be
+        # called on relativized layouts); absolute layouts with relativize off and fit off are written as they are
+        units = (2,) if fit else rng.choice([(2,), (0, 2)])
+    if history:
+        units = rng.choice([(0,), (0, 2), (0, 1, 3, 4)])
+    pool = [posgen.gen_layout(rng, units) for _ in range(3)]
+    acs = posgen.gen_capset(rng, units, levels=("lang", "cap", "node"), pool=pool, with_global=True,
+                            bare_text_layouts=(fmt == "vtt"), break_layouts=True, style_only=True)
+    acs["opts"] = {"inline": fmt == "dfxp" and rng.random() < 0.3,
+                   "force": rng.choice([lg["name"] for lg in acs["langs"]]) if fmt in ("dfxp", "vtt") and rng.random() < 0.25 else None}
+    if fmt == "sami" and rng.random() < 0.5:
+        acs["styles"] = True
+    if fmt == "vtt" and rng.random() < 0.15:
+        # raw cue settings at caption level (as WebVTTReader attaches them): passed through verbatim
+        c = rng.choice(acs["langs"][0]["caps"])
+        c["layout"] = (None, None, None, None, rng.choice(RAW_SETTINGS))
+        for n in c["nodes"]:
+            if n[0] == "text":
+                n[-1] = None
+    return acs, units
 
 
 def stream_writers(ctx, res):
@@ -559,26 +832,20 @@ def stream_writers(ctx, res):
         rel = rng.random() < 0.75
         fit = rng.random() < 0.5
         w, h = rng.choice(CFG_DIMS)
-        if rel:
-            units = rng.choice([(0,), (0, 2), (2,), (0, 1, 2, 3, 4), (1, 3, 4)])
-        else:
-            # relativize off + fit on is only meaningful on percentage layouts (fit_to_screen documents that it must be
-            # called on relativized layouts); absolute layouts with relativize off and fit off are written as they are
-            units = (2,) if fit else rng.choice([(2,), (0, 2)])
-        pool = [posgen.gen_layout(rng, units) for _ in range(3)]
-        acs = posgen.gen_capset(rng, units, levels=("lang", "cap", "node"), pool=pool, with_global=(fmt == "sami"),
-                                bare_text_layouts=(fmt == "vtt"))
-        shape = None
-        if fmt == "dfxp" and rel:
-            # language-level layout with an absolute length: the shape of defect #14
-            if any(lg["layout"] is not None and any(s is not None and any(x[1] != 2 for x in s) for s in posgen.tup(lg["layout"])[:3])
-                   for lg in acs["langs"]):
-                shape = "lang-level"
-        r = check_case(fmt, (rel, fit, w, h), acs, printed, res, shape)
+        acs, units = gen_writer_case(rng, fmt, rel, fit)
+        r = check_case(fmt, (rel, fit, w, h), acs, printed, res, None)
         key = f"{fmt}:{r}"
         outcomes[key] = outcomes.get(key, 0) + 1
         if r in ("ok", "refused") and rel and units != (2,):
             res["nontrivial"].add(("writer", fmt, repr(acs), rel, fit, w, h))
+    # deterministic shape of the known finding C13-dfxp-set-level-fallback-region: set-level px layout, forced language
+    # without layouts, another language carrying an equal layout
+    L = (((64, 0), (36, 0)), None, None, None, None)
+    acs = {"global": L, "opts": {"inline": False, "force": "en-US"},
+           "langs": [{"name": "en-US", "layout": None, "caps": [{"layout": None, "nodes": [["text", "alpha0", None]]}]},
+                     {"name": "fr", "layout": None, "caps": [{"layout": L, "nodes": [["text", "beta1", None]]}]}]}
+    r = check_case("dfxp", (True, False, 640, 360), acs, printed, res, None)
+    outcomes[f"dfxp:{r}"] = outcomes.get(f"dfxp:{r}", 0) + 1
     res["distribution"]["writer_outcomes"] = outcomes
     res["distribution"]["writer_excluded"] = "relativize off + fit on with absolute units (documented ValueError): not generated"
 
@@ -605,10 +872,7 @@ def stream_history(ctx, res):
     outcomes = {}
     for i in range(ctx.n(60, 1500)):
         fmt = ["dfxp", "sami", "vtt"][i % 3]
-        units = rng.choice([(0,), (0, 2), (0, 1, 3, 4)])
-        pool = [posgen.gen_layout(rng, units) for _ in range(2)]
-        acs = posgen.gen_capset(rng, units, nlangs=(1, 2), ncaps=(1, 2), levels=("lang", "cap", "node"), pool=pool,
-                                with_global=(fmt == "sami"), bare_text_layouts=(fmt == "vtt"))
+        acs, units = gen_writer_case(rng, fmt, True, False, history=True)
         k = rng.randint(3, 5)
         dims = [HISTORY_DIMS[0]] + [rng.choice(HISTORY_DIMS[1:]) for _ in range(k - 1)]
         fit = rng.random() < 0.5
